@@ -14,6 +14,10 @@ import PetgraphModel.Proofs.C09W2TjBig
 import PetgraphModel.Proofs.C09W3Total
 import PetgraphModel.Proofs.C09W3Tarjan
 import PetgraphModel.Proofs.C09W3Driver
+import PetgraphModel.Proofs.C09W4Space
+import PetgraphModel.Proofs.C09W4Complete
+import PetgraphModel.Proofs.C09W4Abstract
+import PetgraphModel.Proofs.C09W4Checks
 /-
 C09 — SCC, connectivity, cycle detection, toposort and condensation are exact.
 
@@ -545,5 +549,381 @@ theorem C09_toposort_needs_bound_witness :
     have := h 0 (by simp [v, g])
     revert this
     decide
+
+/-! ## Part 4 (wave 4) — completeness of the checkers: the driver raises no false `SPECFAIL`
+
+Part 1 is soundness (`checker accepts → clause`).  Here the converse, for all graphs and all candidate
+outputs: `clause → checker accepts`; the Option-valued checkers always answer.  So every checker
+DECIDES its clause.  The one ingredient beyond Part 1 is totality of the reachability oracle
+(`Proofs/ReachTotal.lean`: `reachFrom` never exhausts its fuel, for any graph).  Nothing had to be
+refuted: all 13 checkers are complete. -/
+
+theorem C09_scc_checker_complete (g : MGraph) (comps : List (List Nat)) (h : SccSpec g comps) :
+    sccOkB g comps = true :=
+  C09P.sccOkB_complete h
+
+theorem C09_index_checker_complete (comps : List (List Nat)) (idx : List (Nat × Nat))
+    (h : IndexSpec comps idx) : indexOkB comps idx = true :=
+  C09P.indexOkB_complete h
+
+/-- the count checker always answers, and with THE number of weak components -/
+theorem C09_wcc_checker_complete (g : MGraph) :
+    (∃ k, wccCount g = some k) ∧ ∀ k, IsWccCount g k → wccCount g = some k :=
+  ⟨C09P.wccCount_total g, fun _ h => C09P.wccCount_complete h⟩
+
+/-- the reachability oracle always answers, hence decides `Reach` -/
+theorem C09_has_path_checker_complete (g : MGraph) (a b : Nat) :
+    (Reach g a b → reachB g a b = some true) ∧ (¬ Reach g a b → reachB g a b = some false) :=
+  ⟨(reachB_iff g a b).mpr, (reachB_false_iff g a b).mpr⟩
+
+theorem C09_cyclic_directed_checker_complete (g : MGraph) :
+    (CyclicD g → cycDYes g = true) ∧ (¬ CyclicD g → cycDNo g = true) :=
+  ⟨C09P.cycDYes_complete, C09P.cycDNo_complete⟩
+
+theorem C09_cyclic_undirected_checker_complete (g : MGraph) :
+    (CyclicU g → cycUYes g = true) ∧ (¬ CyclicU g → cycUNo g = true) :=
+  ⟨C09P.cycUYes_complete, C09P.cycUNo_complete⟩
+
+theorem C09_bipartite_checker_complete (g : MGraph) (s : Nat) :
+    (TwoCol g s → twoColB g s = some true) ∧ (¬ TwoCol g s → twoColB g s = some false) :=
+  C09P.twoColB_complete g s
+
+theorem C09_toposort_ok_checker_complete (g : MGraph) (ord : List Nat) (h : TopoOrder g ord) :
+    topoOkB g ord = true :=
+  C09P.topoOkB_complete h
+
+theorem C09_toposort_err_checker_complete (g : MGraph) (x : Nat) (h : Reach1 g x x) : onCycleB g x = true :=
+  C09P.onCycleB_complete h
+
+theorem C09_condensation_checker_complete (g : MGraph) (nodes : List (List Nat)) (es : List (Nat × Nat × Int))
+    (h : CondSpec g nodes es) : condOkB g nodes es = true :=
+  C09P.condOkB_complete h
+
+theorem C09_condensation_acyclic_checker_complete (g : MGraph) (nodes : List (List Nat))
+    (es : List (Nat × Nat × Int)) (h : CondAcyclicSpec g nodes es) : condAcyclicOkB g nodes es = true :=
+  C09P.condAcyclicOkB_complete h
+
+/-- all Boolean checkers at once: each DECIDES its clause -/
+theorem C09_checkers_decide (g : MGraph) :
+    (∀ comps, sccOkB g comps = true ↔ SccSpec g comps) ∧
+    (∀ comps idx, indexOkB comps idx = true ↔ IndexSpec comps idx) ∧
+    (∀ k, wccCount g = some k ↔ IsWccCount g k) ∧
+    (∀ a b, reachB g a b = some true ↔ Reach g a b) ∧
+    (cycDYes g = true ↔ CyclicD g) ∧ (cycDNo g = true ↔ ¬ CyclicD g) ∧
+    (cycUYes g = true ↔ CyclicU g) ∧ (cycUNo g = true ↔ ¬ CyclicU g) ∧
+    (∀ s, twoColB g s = some true ↔ TwoCol g s) ∧
+    (∀ ord, topoOkB g ord = true ↔ TopoOrder g ord) ∧
+    (∀ x, onCycleB g x = true ↔ Reach1 g x x) ∧
+    (∀ nodes es, condOkB g nodes es = true ↔ CondSpec g nodes es) ∧
+    (∀ nodes es, condAcyclicOkB g nodes es = true ↔ CondAcyclicSpec g nodes es) :=
+  ⟨fun _ => ⟨C09P.sccOkB_sound, C09P.sccOkB_complete⟩,
+   fun _ _ => ⟨C09P.indexOkB_sound, C09P.indexOkB_complete⟩,
+   fun _ => ⟨C09P.wccCount_sound, C09P.wccCount_complete⟩,
+   fun a b => reachB_iff g a b,
+   ⟨C09P.cycDYes_sound, C09P.cycDYes_complete⟩, ⟨C09P.cycDNo_sound, C09P.cycDNo_complete⟩,
+   ⟨C09P.cycUYes_sound, C09P.cycUYes_complete⟩, ⟨C09P.cycUNo_sound, C09P.cycUNo_complete⟩,
+   fun s => ⟨fun h => (C09P.twoColB_sound h).mp rfl, (C09P.twoColB_complete g s).1⟩,
+   fun _ => ⟨C09P.topoOkB_sound, C09P.topoOkB_complete⟩,
+   fun _ => ⟨C09P.onCycleB_sound, C09P.onCycleB_complete⟩,
+   fun _ _ => ⟨C09P.condOkB_sound, C09P.condOkB_complete⟩,
+   fun _ _ => ⟨C09P.condAcyclicOkB_sound, C09P.condAcyclicOkB_complete⟩⟩
+
+/-- the driver's judges built from them raise an alarm exactly when the clause fails -/
+theorem C09_driver_judges_exact (g : MGraph) :
+    (∀ comps, C09.judgeScc g comps = none ↔ SccSpec g comps) ∧
+    (∀ comps idx, C09.judgeIndex comps idx = none ↔ IndexSpec comps idx) ∧
+    (∀ nodes es, C09.judgeCond g false nodes es = none ↔ CondSpec g nodes es) ∧
+    (∀ nodes es, C09.judgeCond g true nodes es = none ↔ CondAcyclicSpec g nodes es) := by
+  refine ⟨fun comps => ?_, fun comps idx => ?_, fun nodes es => ?_, fun nodes es => ?_⟩
+  · rw [← (C09_checkers_decide g).1 comps]
+    unfold C09.judgeScc
+    cases sccOkB g comps <;> cases partOkB g comps <;> simp
+  · rw [← (C09_checkers_decide g).2.1 comps idx]
+    unfold C09.judgeIndex
+    cases indexOkB comps idx <;> simp
+  · rw [← (C09_checkers_decide g).2.2.2.2.2.2.2.2.2.2.2.1 nodes es]
+    unfold C09.judgeCond
+    cases hp : partOkB g nodes <;> cases hc : condOkB g nodes es <;> simp
+    simp [condOkB, hp] at hc
+  · rw [← (C09_checkers_decide g).2.2.2.2.2.2.2.2.2.2.2.2 nodes es]
+    unfold C09.judgeCond
+    cases hp : partOkB g nodes <;> cases hc : condAcyclicOkB g nodes es <;> simp
+    simp [condAcyclicOkB, hp] at hc
+
+/-! non-vacuity: the specs are met by concrete answers (and then accepted) -/
+example : SccSpec exG [[2, 3], [1, 0], [4]] := C09_scc_checker_sound _ _ (by decide +kernel)
+example : ¬ CyclicU ⟨false, [0, 1, 2, 3], exU.edges.take 2⟩ :=
+  (C09_cyclic_undirected_checker_sound _).2 (by decide +kernel)
+
+/-! ## Part 5 (wave 4) — a reused `DfsSpace` gives the same answers
+
+`Model/C09Space.lean` runs `has_path_connecting` / `toposort` on an explicit workspace `Space`: ANY
+stack contents and ANY visit map — a `FixedBitSet` of any length with any bits set (`DfsSpace::default()`
+= length 0; a space made for a smaller or larger graph; leftovers of earlier calls, including a
+`toposort` that returned `Err(Cycle)` early with a non-empty stack) or a `HashSet` with any members.
+Both functions start with `dfs.reset(g)` = `reset_map` (`clear(); grow(node_bound)`, never shrinks) +
+`stack.clear()`; `visit` on a `FixedBitSet` panics beyond its length.  The theorems: the answer through
+any workspace equals the workspace-free model (`hasPath` / `toposort`, to which Parts 2–3 apply) — fuel
+included, and without a panic. -/
+
+/-- what a workspace needs from the graph type: the `NodeIndexable` contract for a `FixedBitSet`,
+nothing for a `HashSet` -/
+abbrev MapOk := C09P.MapOk
+
+/-- `IxOk` covers any kind of map -/
+theorem C09_mapOk_of_ixOk (v : View) (hix : IxOk v) (m : VMap) : MapOk v m := by
+  cases m with
+  | bits b => exact hix
+  | set s => trivial
+
+/-- **`has_path_connecting(g, a, b, Some(space))` = `has_path_connecting(g, a, b, None)`** for every
+workspace, and the workspace it leaves behind is usable again. -/
+theorem C09_has_path_space (v : View) (hv : ViewOk v) (hwf : v.g.WellFormed) (ws : Space)
+    (hm : MapOk v ws.map) (a b : Nat) (ha : a ∈ v.g.nodes) :
+    (hasPathS v ws a b).map (·.1) = WR.ofOption (hasPath v a b) ∧
+    ∀ r ws', hasPathS v ws a b = .ret (r, ws') → MapOk v ws'.map :=
+  C09P.hasPathS_eq v (C09P.closed_of_viewOk hv hwf) ws hm a b ha
+
+/-- **`toposort(g, Some(space))` = `toposort(g, None)`** for every workspace. -/
+theorem C09_toposort_space (v : View) (hv : ViewOk v) (hp : PredOk v) (hwf : v.g.WellFormed) (ws : Space)
+    (hm : MapOk v ws.map) :
+    (toposortS v ws).map (·.1) = WR.ofOption (toposort v) ∧
+    ∀ r ws', toposortS v ws = .ret (r, ws') → MapOk v ws'.map :=
+  C09P.toposortS_eq v (C09P.closed_of_viewOk hv hwf) (C09P.closed_rev hp hwf) ws hm
+
+/-- **a reused `DfsSpace` gives the same answers**: any sequence of `has_path_connecting` / `toposort`
+calls through ONE workspace, whatever it holds at the start, answers call by call what the same calls
+answer without a workspace. -/
+theorem C09_space_reuse (v : View) (hv : ViewOk v) (hp : PredOk v) (hwf : v.g.WellFormed) (ws : Space)
+    (hm : MapOk v ws.map) (ops : List SpaceOp) (hops : C09P.OpsOk v ops) :
+    (runSpace v ws ops).1 = ops.map (freshAns v) :=
+  C09P.runSpace_eq v (C09P.closed_of_viewOk hv hwf) (C09P.closed_rev hp hwf) ops ws hm hops
+
+/-- … hence the answers do not depend on the workspace. -/
+theorem C09_space_independent (v : View) (hv : ViewOk v) (hp : PredOk v) (hwf : v.g.WellFormed)
+    (ws ws' : Space) (hm : MapOk v ws.map) (hm' : MapOk v ws'.map) (ops : List SpaceOp)
+    (hops : C09P.OpsOk v ops) : (runSpace v ws ops).1 = (runSpace v ws' ops).1 := by
+  rw [C09_space_reuse v hv hp hwf ws hm ops hops, C09_space_reuse v hv hp hwf ws' hm' ops hops]
+
+/-- **through any workspace `has_path_connecting` answers, and with reachability** (no run hypothesis). -/
+theorem C09_has_path_space_exact (v : View) (hv : ViewOk v) (hwf : v.g.WellFormed) (hb : SuccBound v)
+    (ws : Space) (hm : MapOk v ws.map) (a b : Nat) (ha : a ∈ v.g.nodes) :
+    ∃ r ws', hasPathS v ws a b = .ret (r, ws') ∧ (r = true ↔ Reach v.g a b) := by
+  obtain ⟨r, hr, hspec⟩ := C09_has_path_total v hv hwf hb a b ha
+  have h := (C09_has_path_space v hv hwf ws hm a b ha).1
+  rw [hr] at h
+  obtain ⟨⟨r', ws'⟩, e1, e2⟩ := C09P.wr_map_ret h
+  exact ⟨r', ws', e1, by simp only at e2; rw [e2]; exact hspec⟩
+
+/-- **through any workspace `toposort` answers `Ok(order)` with a topological order exactly when the graph
+is acyclic, otherwise `Err(Cycle(x))` with `x` on a cycle** (no run hypothesis). -/
+theorem C09_toposort_space_exact (v : View) (hv : ViewOk v) (hp : PredOk v) (hwf : v.g.WellFormed)
+    (hb : SuccBound v) (hbp : PredBound v) (ws : Space) (hm : MapOk v ws.map) :
+    ∃ r ws', toposortS v ws = .ret (r, ws') ∧
+      match r with
+      | .ok ord => TopoOrder v.g ord ∧ ¬ CyclicD v.g
+      | .cycle x => Reach1 v.g x x ∧ CyclicD v.g := by
+  obtain ⟨r, hr⟩ := C09_toposort_total v hv hp hwf hb hbp
+  have h := (C09_toposort_space v hv hp hwf ws hm).1
+  rw [hr] at h
+  obtain ⟨⟨r', ws'⟩, e1, e2⟩ := C09P.wr_map_ret h
+  simp only at e2
+  subst e2
+  refine ⟨r', ws', e1, ?_⟩
+  cases r' with
+  | ok ord => exact C09_toposort_ok v hv hp hwf ord hr
+  | cycle x => exact C09_toposort_cycle v hv hp hwf x hr
+
+/-- the `NodeIndexable` bound is needed: a (contract-violating) view whose only node has `to_index = 3`
+with `node_bound = 1` makes the answer depend on the workspace — a fresh one (`FixedBitSet` of length
+`node_bound`) panics in `visit`, one made for a larger graph answers.  Everything else holds. -/
+theorem C09_space_needs_index_bound_witness :
+    ∃ (v : View) (ws : Space), ViewOk v ∧ PredOk v ∧ v.g.WellFormed ∧ C09P.IxInj v ∧ ¬ C09P.IxLt v ∧
+      (hasPathS v (Space.fresh v false) 0 0).map (·.1) = .panic ∧
+      (hasPathS v ws 0 0).map (·.1) = .ret true := by
+  let g : MGraph := ⟨true, [0], []⟩
+  let v : View := ⟨g, 1, [(0, 3)], [], []⟩
+  refine ⟨v, { stack := [7], map := .bits (List.replicate 10 true) }, ?_, ?_, ?_, ?_, ?_, by decide, by decide⟩
+  · intro a b; simp [View.succ, View.outOf, v, g, MGraph.Adj]
+  · intro a b; simp [View.pred, View.innOf, v, g, MGraph.Adj]
+  · exact ⟨by simp [v, g], by intro e he; simp [v, g] at he⟩
+  · intro a ha b hb _
+    simp only [v, g, List.mem_singleton] at ha hb
+    rw [ha, hb]
+  · intro h
+    have := h 0 (by simp [v, g])
+    revert this
+    decide
+
+/-! non-vacuity: on `exV` a dirty workspace (made for 2 nodes, all bits set, leftovers on the stack) and one
+made for 40 nodes answer as the fresh model does -/
+example : (hasPathS exV { stack := [9, 9], map := .bits [true, true] } 0 3).map (·.1) = .ret true := by decide +kernel
+example : (hasPathS exV { stack := [], map := .bits (List.replicate 40 true) } 3 0).map (·.1) = .ret false := by
+  decide +kernel
+example : (toposortS exV { stack := [1, 2], map := .set [0, 1, 2, 3, 4] }).map (·.1) = .ret (.cycle 4) := by
+  decide +kernel
+example : (runSpace exV { stack := [3], map := .bits [true] } [.toposort, .hasPath 0 3, .toposort, .hasPath 3 0]).1 =
+    [.topo (.cycle 4), .bool true, .topo (.cycle 4), .bool false] := by decide +kernel
+
+/-! ## Part 6 (wave 4) — from the index graph to the abstract graph
+
+`C09_connected_components` / `C09_cyclic_undirected` speak about `pairGraph nb pairs`, the graph the two
+functions see through `to_index` and `edge_references()`.  Under the C06 consistency conditions (all
+checked per case by the driver) they hold for the abstract graph `v.g`. -/
+
+/-- `edge_references()` (in abstract ids) reports the edges, orientation ignored, as a set / multiset -/
+abbrev ErSet := C09P.ErSet
+abbrev ErOk := C09P.ErOk
+/-- every index below `node_bound` is the index of a node (`NodeCompactIndexable`) -/
+abbrev Compact := C09P.Compact
+/-- the pairs handed to the union–find: `(to_index(source), to_index(target))` per edge reference -/
+abbrev ixPairs := C09P.ixPairs
+
+/-- **`connected_components` (mirror model) is the number of weakly connected components of the
+abstract graph**; a set-level `edge_references` suffices (so `Csr<Undirected>`, D7, is covered). -/
+theorem C09_connected_components_abstract (v : View) (er : List (Nat × Nat)) (hwf : v.g.WellFormed)
+    (hix : IxOk v) (hc : Compact v) (her : ErSet v.g er) (k : Nat)
+    (h : connectedComponents v.nb (ixPairs v er) = some k) : IsWccCount v.g k :=
+  C09P.connectedComponents_abstract v er hwf hix.1 hix.2 hc her k h
+
+/-- **`is_cyclic_undirected` (mirror model) decides whether the abstract multigraph, direction ignored,
+has a cycle** (self-loops and parallel edges count); needs the multiset-level `edge_references`. -/
+theorem C09_cyclic_undirected_abstract (v : View) (er : List (Nat × Nat)) (hwf : v.g.WellFormed)
+    (hix : IxOk v) (her : ErOk v.g er) (b : Bool)
+    (h : cyclicUndirected v.nb (ixPairs v er) (UF.new 0 v.nb) = some b) : b = true ↔ CyclicU v.g :=
+  C09P.cyclicUndirected_abstract v er hwf hix.1 hix.2 her b h
+
+/-- the documented exception, open finding D7 (`Csr<Undirected>::edge_references` reports every non-loop
+edge in both orientations): as soon as ONE non-loop pair is reported both ways the function answers
+`true`, whatever the graph. -/
+theorem C09_cyclic_undirected_doubled (nb : Nat) (pairs : List (Nat × Nat))
+    (hin : ∀ p ∈ pairs, p.1 < nb ∧ p.2 < nb) (a b : Nat) (hab : a ≠ b) (h1 : (a, b) ∈ pairs)
+    (h2 : (b, a) ∈ pairs) (r : Bool) (h : cyclicUndirected nb pairs (UF.new 0 nb) = some r) : r = true :=
+  C09P.cyclicUndirected_doubled nb pairs hin a b hab h1 h2 r h
+
+/-- `C09_cyclic_undirected_abstract` with `ErSet` in place of `ErOk` is false (the D7 shape): one edge
+`0 – 1` reported as `(0,1),(1,0)`. -/
+theorem C09_cyclic_undirected_set_false_witness :
+    ∃ (v : View) (er : List (Nat × Nat)), v.g.WellFormed ∧ IxOk v ∧ Compact v ∧ ErSet v.g er ∧
+      cyclicUndirected v.nb (ixPairs v er) (UF.new 0 v.nb) = some true ∧ ¬ CyclicU v.g := by
+  let g : MGraph := ⟨false, [0, 1], [⟨0, 0, 1, 1⟩]⟩
+  let v : View := ⟨g, 2, [(0, 0), (1, 1)], [], []⟩
+  have hix : C09J.ixOkB v = true := by decide
+  refine ⟨v, [(0, 1), (1, 0)], C09P.wfB_sound (by decide), C09P.ixOkB_sound hix,
+    C09P.compactB_sound (by decide), C09P.erSetOkB_sound (by decide), by decide +kernel, ?_⟩
+  exact (C09_cyclic_undirected_checker_sound _).2 (by decide +kernel)
+
+/-- `Compact` is needed for the count: a vacant index is counted as a component. -/
+theorem C09_connected_components_needs_compact_witness :
+    ∃ (v : View) (er : List (Nat × Nat)), v.g.WellFormed ∧ IxOk v ∧ ErOk v.g er ∧ ¬ Compact v ∧
+      connectedComponents v.nb (ixPairs v er) = some 2 ∧ IsWccCount v.g 1 ∧ ¬ IsWccCount v.g 2 := by
+  let g : MGraph := ⟨false, [0], []⟩
+  let v : View := ⟨g, 2, [(0, 0)], [], []⟩
+  have hix : C09J.ixOkB v = true := by decide
+  have h1 : IsWccCount v.g 1 := C09_wcc_checker_sound _ _ (by decide +kernel)
+  refine ⟨v, [], C09P.wfB_sound (by decide), C09P.ixOkB_sound hix, C09P.erOkB_sound (by decide), ?_,
+    by decide +kernel, h1, fun h2 => absurd (C09_wcc_count_unique _ _ _ h1 h2) (by decide)⟩
+  intro hc
+  obtain ⟨a, ha, hai⟩ := hc 1 (by decide)
+  simp only [v, g, List.mem_singleton] at ha
+  subst ha
+  revert hai
+  decide
+
+/-! ## run-time checks of the hypotheses (G-A)
+
+Every hypothesis of the theorems above that concerns the concrete case has an executable Boolean
+(`Oracle/C09Checks.lean`, `Driver/C09.lean`) which the driver evaluates on every case it judges; a
+failure is reported as `SPECFAIL side condition <name> does not hold`.  Here: `check = true → hypothesis`,
+and, for every function, the property clause with NO hypothesis left but the checks. -/
+
+theorem C09_wf_check (g : MGraph) (h : wfB g = true) : g.WellFormed := C09P.wfB_sound h
+
+theorem C09_hout_check (v : View) (h : houtB v = true) :
+    ∀ a, a ∉ v.g.nodes → v.succ a = [] ∧ v.pred a = [] := C09P.houtB_sound h
+
+theorem C09_ix_check (v : View) (h : ixOkB v = true) : IxOk v := C09P.ixOkB_sound h
+
+theorem C09_size_check (v : View) (h : sizeB v = true) : 2 * v.g.nodes.length + 1 ≤ usizeMax :=
+  C09P.sizeB_sound h
+
+theorem C09_compact_check (v : View) (h : compactB v = true) : Compact v := C09P.compactB_sound h
+
+theorem C09_erset_check (g : MGraph) (er : List (Nat × Nat)) (h : erSetOkB g er = true) : ErSet g er :=
+  C09P.erSetOkB_sound h
+
+theorem C09_er_check (g : MGraph) (er : List (Nat × Nat)) (h : erOkB g er = true) : ErOk g er :=
+  C09P.erOkB_sound h
+
+theorem C09_eo_check (v : View) (eo : List Nat) (h : eoOkB v eo = true) :
+    (eo.filterMap v.edge?).Perm v.g.edges := C09P.eoOkB_sound h
+
+theorem C09_node_check (g : MGraph) (a : Nat) (h : nodeB g a = true) : a ∈ g.nodes := C09P.nodeB_sound h
+
+/-- the `graph` line is accepted (`ok`) exactly when `caseOkB` holds, and then ALL view hypotheses of
+Parts 2, 3, 5, 6 hold. -/
+theorem C09_case_check (v : View) :
+    (C09.caseWhy v = none ↔ C09.caseOkB v = true) ∧
+    (C09.caseOkB v = true → ViewOk v ∧ PredOk v ∧ SuccBound v ∧ PredBound v ∧ v.g.WellFormed ∧ IxOk v ∧
+      2 * v.g.nodes.length + 1 ≤ usizeMax) :=
+  ⟨C09P.caseWhy_none_iff v, fun h =>
+    let c := C09P.caseOkB_sound h
+    ⟨c.view, c.pred, c.succLe, c.predLe, c.wf, ⟨c.ixLt, c.ixInj⟩, c.size⟩⟩
+
+/-- **every function on every checked case**: the mirror model answers and its answer satisfies the
+property's clause — no hypothesis but the run-time checks. -/
+theorem C09_checked_case (v : View) (h : C09.caseOkB v = true) :
+    (∃ comps, kosaraju v = some comps ∧ SccSpec v.g comps) ∧
+    (∃ t1 t2, tjRun v {} = some t1 ∧ tjRun v t1 = some t2 ∧
+      (SccSpec v.g t1.out ∧ IndexSpec t1.out (v.g.nodes.map fun x => (x, tjIndex v t1 x))) ∧
+      (SccSpec v.g t2.out ∧ IndexSpec t2.out (v.g.nodes.map fun x => (x, tjIndex v t2 x)))) ∧
+    (∀ a b, nodeB v.g a = true → ∃ r, hasPath v a b = some r ∧ (r = true ↔ Reach v.g a b)) ∧
+    (∃ b, cyclicDirected v = some b ∧ (b = true ↔ CyclicD v.g)) ∧
+    (∀ s, nodeB v.g s = true → ∃ b, bipartite v s = .answer b ∧ (b = true ↔ TwoCol v.g s)) ∧
+    (((∃ ord, toposort v = some (.ok ord)) ↔ ¬ CyclicD v.g) ∧
+      (¬ CyclicD v.g → ∃ ord, toposort v = some (.ok ord) ∧ TopoOrder v.g ord) ∧
+      (CyclicD v.g → ∃ x, toposort v = some (.cycle x) ∧ Reach1 v.g x x)) ∧
+    (∀ eo, eoOkB v eo = true →
+      (∃ c, condensation v eo false = some c ∧ CondSpec v.g c.nodes c.edges) ∧
+      (∃ c, condensation v eo true = some c ∧ CondAcyclicSpec v.g c.nodes c.edges)) := by
+  obtain ⟨hv, hp, hb, hbp, hwf, hix, hsize⟩ := (C09_case_check v).2 h
+  exact ⟨C09_kosaraju_total v hv hp hwf hb hbp, C09_tarjan_exact v hv hix hwf hb hsize,
+    fun a b ha => C09_has_path_total v hv hwf hb a b (C09P.nodeB_sound ha),
+    C09_cyclic_directed_total v hv hwf hb,
+    fun s hs => C09_bipartite_total v hv hwf s (C09P.nodeB_sound hs),
+    C09_toposort_ok_iff_acyclic v hv hp hwf hb hbp,
+    fun eo heo => C09_condensation_total v hv hp hwf hb hbp eo (C09P.eoOkB_sound heo)⟩
+
+/-- **`connected_components` / `is_cyclic_undirected` on every checked case**, about the abstract graph. -/
+theorem C09_checked_union_find (v : View) (h : C09.caseOkB v = true) (er : List (Nat × Nat)) :
+    (erSetOkB v.g er = true → compactB v = true → ∀ k,
+      connectedComponents v.nb (ixPairs v er) = some k → IsWccCount v.g k) ∧
+    (erOkB v.g er = true → ∀ b,
+      cyclicUndirected v.nb (ixPairs v er) (UF.new 0 v.nb) = some b → (b = true ↔ CyclicU v.g)) := by
+  obtain ⟨_, _, _, _, hwf, hix, _⟩ := (C09_case_check v).2 h
+  exact ⟨fun h1 h2 k hk => C09_connected_components_abstract v er hwf hix (C09P.compactB_sound h2)
+      (C09P.erSetOkB_sound h1) k hk,
+    fun h1 b hb => C09_cyclic_undirected_abstract v er hwf hix (C09P.erOkB_sound h1) b hb⟩
+
+/-- **a reused `DfsSpace` on every checked case**: whatever workspace (of either kind, any length, any
+content) the calls go through, every `has_path_connecting` from a node and every `toposort` answers what
+the workspace-free call answers, which is exact by `C09_checked_case`. -/
+theorem C09_checked_space (v : View) (h : C09.caseOkB v = true) (ws : Space) (ops : List SpaceOp)
+    (hops : ∀ op ∈ ops, match op with | .hasPath a _ => nodeB v.g a = true | .toposort => True) :
+    (runSpace v ws ops).1 = ops.map (freshAns v) := by
+  obtain ⟨hv, hp, _, _, hwf, hix, _⟩ := (C09_case_check v).2 h
+  refine C09_space_reuse v hv hp hwf ws (C09_mapOk_of_ixOk v hix ws.map) ops ?_
+  intro op hop
+  have := hops op hop
+  cases op with
+  | hasPath a b => exact C09P.nodeB_sound this
+  | toposort => trivial
+
+/-! non-vacuity: `exV` passes every check -/
+example : C09.caseOkB exV = true := by decide +kernel
+example : eoOkB exV [0, 1, 2, 3, 4, 5, 6] = true ∧ compactB exV = true ∧ nodeB exV.g 3 = true := by decide +kernel
+example : erOkB exG [(1, 0), (0, 1), (2, 1), (2, 3), (3, 2), (4, 4), (1, 2)] = true ∧
+    erOkB exG [(1, 0), (0, 1), (2, 1), (2, 3), (3, 2), (4, 4)] = false ∧
+    erSetOkB exG [(1, 0), (2, 1), (2, 3), (4, 4)] = true := by decide +kernel
 
 end PetgraphModel.C09T
